@@ -33,7 +33,7 @@ int main(int argc, char **argv)
 {
   if (argc < 5) return 3;
   const std::string which(argv[1]); const unsigned rot(strtoul(argv[2], 0, 10)), flags(strtoul(argv[3], 0, 10)), fp(atoi(argv[4]));
-  const unsigned cap(Logger::max_rotation), c(rot < cap ? rot : cap), n(c + 2 < 40 ? c + 2 : 40);
+  const unsigned cap(Logger::max_rotation), c(rot < cap ? rot : cap), n(c + 2);   // every generation up to two past the effective count exists (1026 small files at the cap)
   char tmpl[] = "/tmp/vf_c29_XXXXXX"; const char *dir = getenv("VF_C29_DIR") ? getenv("VF_C29_DIR") : mkdtemp(tmpl);   // the caller removes VF_C29_DIR (a sanitizer abort skips the cleanup below)
   if (!dir) { perror("mkdtemp"); return 3; }
   const std::string d(dir);
